@@ -240,10 +240,11 @@ def run_pattern_corr(ctx, prop_id, r, model_ok):
         r.count('cone_okb (hypotheses of simulate_cone_truth_tables)', 'hold', len(cones) - len(bad))
         r.count('cone_okb (hypotheses of simulate_cone_truth_tables)', 'fail', len(bad))
         for i in bad:
-            if cones[i]['closed_family']:
-                r.disagreements.append({'name': 'cone_okb fails on a cone of the full cut family',
-                                        'detail': _brief(cones[i])})
-                break
+            # since fixes/D30.patch the node set of every cut is closed under operands, whatever the family
+            r.disagreements.append({'name': 'cone_okb fails on a cone ('
+                                            + ('full cut family' if cones[i]['closed_family'] else 'random sub-family')
+                                            + ')', 'detail': _brief(cones[i])})
+            break
 
 
 def _brief(c):
